@@ -216,10 +216,19 @@ func ruleRelayFetchesOnlyDueRounds(c *Ctx, rule string) {
 		ok := mustCross(ci.(ssa.Instruction), func(e edge) bool {
 			for _, cj := range edgeConjuncts(e) {
 				call, isCall := stripConv(cj.cond).(*ssa.Call)
-				if !isCall || calleeName(call) != "(time.Time).After" || cj.truth {
+				if !isCall || cj.truth {
 					continue
 				}
-				recv, arg := call.Call.Args[0], call.Call.Args[1]
+				// scheduled.After(now), or the same test spelled now.Before(scheduled)
+				var recv, arg ssa.Value
+				switch calleeName(call) {
+				case "(time.Time).After":
+					recv, arg = call.Call.Args[0], call.Call.Args[1]
+				case "(time.Time).Before":
+					recv, arg = call.Call.Args[1], call.Call.Args[0]
+				default:
+					continue
+				}
 				if !hasOrigin(Origins(recv), func(o Origin) bool {
 					return o.Kind == "call" && (strings.HasSuffix(o.Name, "dateOfRound") || strings.HasSuffix(o.Name, "common.TimeOfRound"))
 				}) {
